@@ -23,6 +23,8 @@ import TickitModel.Core.Contract
 import TickitModel.Core.Regex
 import TickitModel.Core.NestedInt
 import TickitModel.Core.MasterLoop
+import TickitModel.Core.Http
+import TickitModel.Core.Epics
 
 open Lean Tickit
 
@@ -429,6 +431,53 @@ def opRegex (j : Json) : Json :=
   Json.arr ((jarr (jfield j "inputs")).map (fun s =>
     Json.bool (r.accepts ((jarr s).map (fun c => Char.ofNat (jnat c))))) ).toArray
 
+/-! ### HTTP endpoints (Core/Http) and EPICS adapter records (Core/Epics) -/
+
+def jSeg (j : Json) : Http.Seg := match jarr j with
+  | [k, v] => if jstr k == "var" then .var (jstr v) else .lit (jstr v)
+  | _ => .lit ""
+
+def jEndpoint (j : Json) : Http.Endpoint :=
+  { path := (jarr (jfield j "path")).map jSeg, method := jstr (jfield j "method"),
+    interrupt := jbool (jfield j "interrupt"), handler := jnat (jfield j "handler") }
+
+def outHttpEvent : Http.Event → Json
+  | .effect h a => Json.arr #[Json.str "effect", toJson h, Json.arr (a.map (fun (n, v) => Json.arr #[Json.str n, Json.str v])).toArray]
+  | .interrupt => Json.arr #[Json.str "interrupt"]
+  | .reply h => Json.arr #[Json.str "reply", toJson h]
+  | .error st => Json.arr #[Json.str "error", toJson st]
+
+/-- `{"op":"http","endpoints":[...],"requests":[{"method":..,"path":[..]}]}` → per request the event list of the
+indexed resolution (what aiohttp does) and of the registration-order resolution, plus `startsOk`. -/
+def opHttp (j : Json) : Json :=
+  let eps := (jarr (jfield j "endpoints")).map jEndpoint
+  let reqs := jarr (jfield j "requests")
+  Json.mkObj [
+    ("startsOk", Json.bool (Http.startsOk eps)),
+    ("replies", Json.arr (reqs.map (fun r =>
+      let m := jstr (jfield r "method")
+      let p := (jarr (jfield r "path")).map jstr
+      Json.mkObj [("idx", Json.arr ((Http.httpRequestIdx eps m p).map outHttpEvent).toArray),
+                  ("first", Json.arr ((Http.httpRequest eps m p).map outHttpEvent).toArray)])).toArray)]
+
+def outEpicsEv : Epics.Ev Int → Json
+  | .deviceUpdate c => Json.arr #[Json.str "update", Json.str c]
+  | .notify a => Json.arr #[Json.str "notify", Json.str a.1, toJson a.2]
+  | .recordSet b o r v => Json.arr #[Json.str "set", Json.str b.1, toJson b.2, Json.str o.1, toJson o.2, Json.str r, toJson v]
+  | .output c => Json.arr #[Json.str "output", Json.str c]
+
+/-- `{"op":"epics","shared":false,"config":[[name,[[ [record,k,b] ... ] ... ]]],"history":[[c,s]...]}`:
+getter of a link = `fun s => k*s + b`. -/
+def opEpics (j : Json) : Json :=
+  let cfg : Epics.Config Int Int := (jarr (jfield j "config")).map (fun c => match jarr c with
+    | [n, ads] => { name := jstr n, adapters := (jarr ads).map (fun a =>
+        { links := (jarr a).map (fun l => match jarr l with
+            | [r, k, b] => (jstr r, fun (s : Int) => jint k * s + jint b)
+            | _ => ("", fun _ => 0)) }) }
+    | _ => { name := "", adapters := [] })
+  let hist := (jarr (jfield j "history")).map (fun e => match jarr e with | [c, s] => (jstr c, jint s) | _ => ("", 0))
+  Json.arr ((Epics.run (jbool (jfield j "shared")) cfg (fun _ => 0) hist).map outEpicsEv).toArray
+
 def handleLine (line : String) : String :=
   match Json.parse line with
   | .error e => (Json.mkObj [("err", "parse:" ++ e)]).compress
@@ -450,6 +499,8 @@ def handleLine (line : String) : String :=
       | "mloop" => opMLoop j
       | "failstop" => opFailStop j
       | "contract" => opContract j
+      | "http" => opHttp j
+      | "epics" => opEpics j
       | "ping" => Json.str "pong"
       | _ => Json.mkObj [("err", "bad-op")]
     r.compress
